@@ -1,4 +1,5 @@
 import GrmVerif.Model.Cert
+import GrmVerif.Model.CertLA
 import GrmVerif.Model.Recog
 import GrmVerif.Drive.Util
 /-!
@@ -75,7 +76,15 @@ def handle (args : List Nat) : String :=
         then some (if precResolved P.G P.A
               then s!"V fail sentence-rejected-precedence-resolved input={w}"
               else s!"V fail sentence-rejected input={w}") else none)
-    let vs := v1 ++ v2
+    -- lookahead half + table completeness: demanded when construction reported no conflict and no
+    -- cell was settled silently by precedence
+    let v3 := if !conflictFree || precResolved P.G P.A then [] else
+      match Ref.analyses P.G with
+      | none => ["V fail analyses: fuel exhausted"]
+      | some An =>
+        let badLA := Cert.failingLA P.G P.A (An.nullable.contains ·) (An.first.contains ·)
+        if badLA.isEmpty then [] else [s!"V fail certLA clauses={badLA}"]
+    let vs := v1 ++ v3 ++ v2
     "\n".intercalate ((if vs.isEmpty then ["V ok"] else vs) ++ ms)
 
 end GrmVerif.Drive.C01
